@@ -91,6 +91,9 @@ func (ls ListSpec) Build() *astisub.Subtitles {
 		comments = append(comments, " note ")
 		it := &astisub.Item{StartAt: time.Duration(k+1) * time.Second, EndAt: time.Duration(k+2) * time.Second, InlineStyle: &astisub.StyleAttributes{}, Comments: comments,
 			Lines: lines}
+		if k == 1 {
+			it.InlineStyle = nil // a writer must not fill in what is absent
+		}
 		if len(ls.Styles) > k {
 			it.Style = s.Styles[fmt.Sprintf("s%d", k)]
 		}
@@ -410,6 +413,30 @@ func checkPlain(pc PlainCase) (key, msg string, out uint64) {
 			copy(y[224:236], "000000000000")
 			if !bytes.Equal(x, y) {
 				return "clock.stl.leaks-outside-date-fields", "STL outputs under two clocks differ outside the creation/revision date fields", 0
+			}
+		}
+		// mixed: only one of the two dates in the metadata - that one is written, the other comes from the clock
+		for _, which := range []int{0, 1} {
+			astisub.Now = clockA
+			sp := pc.Spec
+			sp.Dates = true
+			l := sp.Build()
+			if which == 0 {
+				l.Metadata.STLRevisionDate = nil
+			} else {
+				l.Metadata.STLCreationDate = nil
+			}
+			var mb bytes.Buffer
+			corpus.Write("stl", l, &mb)
+			m := mb.Bytes()
+			if len(m) >= 236 {
+				wantC, wantR := "210304", "190708"
+				if which == 1 {
+					wantC, wantR = "190708", "220506"
+				}
+				if string(m[224:230]) != wantC || string(m[230:236]) != wantR {
+					return "clock.stl.mixed-dates", fmt.Sprintf("metadata supplies only one date (case %d), clock says 2019-07-08: STL date fields are %q/%q, expected %s/%s", which, m[224:230], m[230:236], wantC, wantR), 0
+				}
 			}
 		}
 		// other writers never look at the clock
